@@ -2903,16 +2903,19 @@ static void DecodeCLRTST(Word Index) {
                   | MModAbs;
         tAdrResult AdrResult;
 
-        switch (pCurrCPUProps->Family) {
-        case eCPU32:
-        case e68KGen2:
-        case e68KGen3:
-            w1 |= MModPC | MModPCIdx | MModImm;
-            if (OpSize != eSymbolSize8Bit) {
-                w1 |= MModAdr;
+        /* only TST gained further operand types on 68020+/CPU32, CLR did not */
+        if (Index == 1) {
+            switch (pCurrCPUProps->Family) {
+            case eCPU32:
+            case e68KGen2:
+            case e68KGen3:
+                w1 |= MModPC | MModPCIdx | MModImm;
+                if (OpSize != eSymbolSize8Bit) {
+                    w1 |= MModAdr;
+                }
+            default:
+                break;
             }
-        default:
-            break;
         }
         if (DecodeAdr(&ArgStr[1], w1, &AdrResult)) {
             CodeLen     = 2 + AdrResult.Cnt;
